@@ -13,6 +13,9 @@
    - integer arithmetic is typed: [U w] wraps modulo 2^w as Go's uintN does;
      [I64] (Go's int / int64 / time.Duration) is checked: a negative or
      >= 2^63 result is [Stuck], i.e. outside the fragment, never a silent wrap;
+     in the functions translated in signed mode Go's int / int64 /
+     time.Duration are instead two's-complement bit patterns: arithmetic is
+     [U 64] (Go's signed arithmetic wraps), ordering is [ECmpS];
    - an out-of-range index or slice bound, a short slice given to
      binary.*Endian.UintNN / PutUintNN and a division by zero are [Panic],
      as in Go;
@@ -66,6 +69,7 @@ Inductive expr : Type :=
 | EB (b : bool)
 | EBin (op : binop) (t : ity) (a b : expr)
 | ECmp (op : cmpop) (a b : expr)
+| ECmpS (op : cmpop) (a b : expr)   (* comparison of two's-complement 64-bit values *)
 | ENot (a : expr)
 | EAndAlso (a b : expr)
 | EOrElse (a b : expr)
@@ -158,6 +162,10 @@ Definition compare_n (op : cmpop) (a b : N) : bool :=
   | CGt => b <? a
   | CGe => b <=? a
   end.
+
+(* order-preserving map from two's-complement 64-bit patterns to N: the signed
+   order of x and y is the unsigned order of [sbias x] and [sbias y] *)
+Definition sbias (x : N) : N := (x + 2 ^ 63) mod 2 ^ 64.
 
 Definition compare_v (op : cmpop) (a b : val) : res val :=
   match a, b with
@@ -252,6 +260,12 @@ Section Eval.
           end))
     | ECmp op a b =>
         rbind (eval st a) (fun va => rbind (eval st b) (fun vb => compare_v op va vb))
+    | ECmpS op a b =>
+        rbind (eval st a) (fun va => rbind (eval st b) (fun vb =>
+          match va, vb with
+          | VN x, VN y => Ok (VB (compare_n op (sbias x) (sbias y)))
+          | _, _ => Stuck
+          end))
     | ENot a =>
         rbind (eval st a) (fun va => match va with VB x => Ok (VB (negb x)) | _ => Stuck end)
     | EAndAlso a b =>
